@@ -283,4 +283,45 @@ theorem range_nonneg {s e st : Int} (hs : 0 ≤ s) (hst : 0 ≤ st) : ∀ i ∈ 
   have : 0 ≤ st * (j:Int) := Int.mul_nonneg hst (Int.natCast_nonneg j)
   omega
 
+
+/-! ### assignment, constructors -/
+
+theorem setInt_ok (a : Poly) {i : Int} (h : -(a.dim:Int) ≤ i ∧ i < a.dim) (v : Int) :
+    a.setInt i v = .ok ⟨a.ival.set (Spec.Poly.pos a.dim i) (red a.size v), a.size⟩ := by
+  simp only [dim] at h
+  simp [setInt, normIndex_pos h, dim]
+
+theorem e_set (l : List Int) (k j : Nat) (v : Int) (hj : j < l.length) (m : Nat) :
+    (⟨l.set j v, k⟩ : Poly).e m = if m = j then v else (⟨l, k⟩ : Poly).e m := by
+  simp only [e, List.getD_eq_getElem?_getD, List.getElem?_set]
+  by_cases h : j = m
+  · subst h; simp [hj]
+  · simp [h, Ne.symm h]
+
+theorem setMany_nil_left (a : Poly) (vs : List Int) : a.setMany [] vs = .ok a := by
+  unfold setMany; rfl
+theorem setMany_nil_right (a : Poly) (js : List Int) : a.setMany js [] = .ok a := by
+  cases js <;> (unfold setMany; rfl)
+theorem setMany_cons (a : Poly) (j v : Int) (js vs : List Int) :
+    a.setMany (j :: js) (v :: vs) = (a.setInt j v >>= fun a' => a'.setMany js vs) := by
+  conv => lhs; unfold setMany
+
+theorem take_pad (l : List Int) (d : Nat) :
+    (l ++ List.replicate (d - l.length) 0).take d = (List.range d).map (Spec.Poly.coeff l) := by
+  apply List.ext_getElem
+  · simp; omega
+  · intro i h1 h2
+    simp only [List.length_map, List.length_range] at h2
+    simp only [List.getElem_take, List.getElem_map, List.getElem_range, Spec.Poly.coeff,
+      List.getD_eq_getElem?_getD, List.getElem_append]
+    by_cases hi : i < l.length
+    · simp [hi]
+    · simp [hi]
+
+theorem fit_WF {l : List Int} {k : Nat} (h : (⟨l, k⟩ : Poly).WF) (d : Nat) : (⟨Spec.Poly.fit d l, k⟩ : Poly).WF := by
+  unfold Spec.Poly.fit
+  split
+  · exact h
+  · exact WF_map_e (a := ⟨l, k⟩) h (List.range d) id
+
 end Proofs.PolyL
